@@ -132,6 +132,24 @@ TARGETS['funcache'] = dict(
     path_oracles={}, param_types={}, dropped_statements=[], dropped_defs=[], unsupported_if={},
 )
 
+OBJ = OPQ('obj')
+TARGETS['container'] = dict(
+    file='sparseSpACE/RefinementContainer.py', cls='RefinementContainer', out='RefContainerMachineGen.v', prop='C06',
+    methods=['update_values', 'prepare_remove', 'add', 'refine', 'apply_remove', 'reinit_new_objects'],
+    attrs={'refinementObjects': LIST(OBJ), 'popArray': LIST(INT), 'startNewObjects': INT, 'value': FLOAT, 'evaluationstotal': INT,
+           'searchPosition': INT},
+    abstract_attrs={}, oracles={}, path_oracles={},
+    # the elements of refinementObjects are objects of their own (RefinementObject): their attributes are projections, their
+    # methods oracles  e_m : T_obj -> args -> option (result * T_obj)  (the element after the call is written back into the list)
+    elem_attrs={'value': FLOAT, 'evaluations': INT, 'start': FLOAT},
+    elem_oracles={'refine': dict(params=[], ret=PAIR(LIST(OBJ), OPQ('lmax_update'), OPT(OPQ('update_info')))),
+                  'update': dict(params=[OPQ('update_info')], ret=UNIT),
+                  'reinit': dict(params=[], ret=UNIT)},
+    local_types={'removed_objects': LIST(OBJ)},
+    param_types={'object_id': INT, 'objectID': INT, 'update_info': OPQ('update_info'), 'new_refinement_objects': LIST(OBJ), 'sort': BOOL},
+    dropped_statements=[], dropped_defs=[], unsupported_if={},
+)
+
 
 class Reject(Exception):
     def __init__(self, node, what):
@@ -366,8 +384,14 @@ class MethodTranslator:
                     root = n.func
                     while isinstance(root, ast.Attribute):
                         root = root.value
+                    if isinstance(root, ast.Subscript):
+                        root = root.value
+                        while isinstance(root, ast.Attribute):
+                            root = root.value
                     if isinstance(root, ast.Name) and root.id == 'self':
                         add('self')
+                    elif isinstance(root, ast.Name) and n.func.attr in ('append', 'extend'):
+                        add(root.id)
 
         def walk(sts):
             for st in sts:
@@ -379,7 +403,9 @@ class MethodTranslator:
                     else:
                         in_expr(st.test); walk(st.body); walk(st.orelse)
                     continue
-                if isinstance(st, ast.While):
+                if isinstance(st, (ast.While, ast.For)):
+                    if isinstance(st, ast.For):
+                        in_expr(st.iter)
                     walk(st.body)
                     continue
                 if isinstance(st, (ast.Assign, ast.AugAssign)):
@@ -478,6 +504,19 @@ class MethodTranslator:
                 lb, fb, _ = self.block(st.orelse, env, vs, ind + 4, loop)
                 L += [sp + '%s %s (if %s then %s else (' % (self.pat(vs), bindblk, term, 'LFail' if loop else 'Fail')] + lb + [sp + '  )) ;;']
                 return cont()
+            nt = self.is_none_test(st.test)
+            if nt and isinstance(nt[0], ast.Name) and env.get(nt[0].id, ('?',))[0] == 'opt' and not loop:
+                # `if X is (not) None:` on an optional variable: the other branch sees X as a value
+                x = nt[0].id
+                vs = [n for n in env if n in self.assigned(st.body + st.orelse)]
+                some_b, none_b = (st.body, st.orelse) if nt[1] else (st.orelse, st.body)
+                v = self.m.temp()
+                nenv = dict(env); nenv[x] = env[x][1]
+                la, fa, _ = self.block(some_b, nenv, vs, ind + 4, loop)
+                lb, fb, _ = self.block(none_b, env, vs, ind + 4, loop)
+                L += [sp + '%s %s (match %s with Some %s => (let %s := %s in' % (self.pat(vs), bindblk, x, v, x, v)] + la + \
+                     [sp + '  ) | None => ('] + lb + [sp + '  ) end) ;;']
+                return cont()
             b, term, t = self.expr(st.test, env)
             self.need(t == BOOL, st, 'if on a non-boolean value (truthiness of %s is not translated)' % (t,))
             L += self.binds(b, ind, loop)
@@ -504,6 +543,42 @@ class MethodTranslator:
             if not fa and not fb:
                 self.need(not rest, st, 'statement after an if whose branches both leave')
                 return L + [sp + '%s %s' % (NXT, self.tup(out))], False, env
+            return cont()
+        if isinstance(st, ast.AugAssign):
+            # x op= e  ==  x = x op e  (the target is read first)
+            load = ast.parse(ast.unparse(st.target), mode='eval').body
+            ast.increment_lineno(load, st.lineno - 1)
+            new = ast.Assign(targets=[st.target], value=ast.BinOp(left=load, op=st.op, right=st.value), lineno=st.lineno)
+            ast.copy_location(new, st); ast.copy_location(new.value, st)
+            self.assign(st.target, new.value, new, env, L, ind, loop)
+            return cont()
+        if isinstance(st, ast.For):
+            self.need(not loop and not st.orelse and isinstance(st.target, ast.Name), st, 'for loop inside while / with else / tuple target')
+            bi, ti, tyi = self.expr(st.iter, env)
+            self.need(tyi[0] == 'list' and tyi[1] is not None, st, 'iteration over %s' % (tyi,))
+            L += self.binds(bi, ind, loop)
+            x = st.target.id
+            self.need(x not in env, st, 'loop variable %s shadows an existing variable' % x)
+            # `for r in self.ATTR: r.m(args)` : every element is replaced by the element after the call
+            b0 = st.body[0] if len(st.body) == 1 else None
+            if isinstance(b0, ast.Expr) and isinstance(b0.value, ast.Call) and isinstance(b0.value.func, ast.Attribute) and \
+                    isinstance(b0.value.func.value, ast.Name) and b0.value.func.value.id == x and tyi[1] == OBJ and \
+                    ast.unparse(st.iter).startswith('self.') and ast.unparse(st.iter)[5:] in self.cfg['attrs']:
+                m = b0.value.func.attr
+                self.need(m in self.cfg.get('elem_oracles', {}) and not b0.value.keywords, st, 'element method %s' % m)
+                o = self.cfg['elem_oracles'][m]
+                self.need(len(b0.value.args) == len(o['params']), st, 'arguments of element method %s' % m)
+                parts = [self.expr(a, env) for a in b0.value.args]
+                L += self.binds(sum((p_[0] for p_ in parts), []), ind, loop)
+                args = ''.join(' ' + self.coerce(p_[1], p_[2], t, st) for p_, t in zip(parts, o['params']))
+                tmp = self.m.temp()
+                L.append(sp + '%s <- (py_mapM (fun %s => option_map snd (e_%s %s%s)) %s) ;;' % (tmp, x, m, x, args, ti))
+                L.append(sp + self.set_attr(ast.unparse(st.iter)[5:], tmp))
+                return cont()
+            benv = dict(env); benv[x] = tyi[1]
+            vs = [n for n in env if n in self.assigned(st.body)]
+            lb, _, _ = self.block(st.body, benv, vs, ind + 4, False)
+            L += [sp + '%s <~ (py_for %s (fun %s %s =>' % (self.pat(vs), ti, x, self.lam(vs))] + lb + [sp + '  ) %s) ;;' % self.tup(vs)]
             return cont()
         if isinstance(st, ast.While):
             self.need(not loop, st, 'nested while')
@@ -588,6 +663,9 @@ class MethodTranslator:
                 term = self.coerce(term, t, env[target.id], st)
                 t = env[target.id]
             self.need(t != NONE, st, 'variable %s bound to None only' % target.id)
+            if t == ('list', None):
+                self.need(target.id in self.cfg.get('local_types', {}), st, 'empty list bound to %s: element type not declared' % target.id)
+                t = self.cfg['local_types'][target.id]
             env[target.id] = t
             L.append(sp + 'let %s := %s in' % (target.id, term))
             return
@@ -611,15 +689,27 @@ class MethodTranslator:
                 b, term, t = self.expr(oc, env)
                 L += self.binds(b, ind, loop)
             return cont()
-        if isinstance(c.func, ast.Attribute) and c.func.attr == 'append' and isinstance(c.func.value, ast.Attribute) and \
+        if isinstance(c.func, ast.Attribute) and c.func.attr in ('append', 'extend') and isinstance(c.func.value, ast.Attribute) and \
                 isinstance(c.func.value.value, ast.Name) and c.func.value.value.id == 'self':
             a = c.func.value.attr
             self.need(a in self.cfg['attrs'] and self.cfg['attrs'][a][0] == 'list' and len(c.args) == 1 and not c.keywords, st,
-                      'append on self.%s' % a)
+                      '%s on self.%s' % (c.func.attr, a))
             bv, tv, tyv = self.expr(c.args[0], env)
             ba, ta, tya = self.expr(c.func.value, env)
             L += self.binds(ba + bv, ind, loop)      # the receiver is evaluated first
-            L.append(sp + self.set_attr(a, '(%s ++ [%s])' % (ta, self.coerce(tv, tyv, tya[1], st))))
+            if c.func.attr == 'append':
+                L.append(sp + self.set_attr(a, '(%s ++ [%s])' % (ta, self.coerce(tv, tyv, tya[1], st))))
+            else:
+                L.append(sp + self.set_attr(a, '(%s ++ %s)' % (ta, self.coerce(tv, tyv, tya, st))))
+            return cont()
+        if isinstance(c.func, ast.Attribute) and c.func.attr == 'append' and isinstance(c.func.value, ast.Name) and \
+                c.func.value.id in env and env[c.func.value.id][0] == 'list' and len(c.args) == 1 and not c.keywords:
+            x = c.func.value.id
+            bv, tv, tyv = self.expr(c.args[0], env)
+            L += self.binds(bv, ind, loop)
+            if env[x][1] is None:
+                env[x] = ('list', tyv)
+            L.append(sp + 'let %s := (%s ++ [%s]) in' % (x, x, self.coerce(tv, tyv, env[x][1], st)))
             return cont()
         if isinstance(c.func, ast.Attribute) and c.func.attr == 'update' and isinstance(c.func.value, ast.Attribute) and \
                 isinstance(c.func.value.value, ast.Name) and c.func.value.value.id == 'self' and \
@@ -701,6 +791,15 @@ class MethodTranslator:
             self.need(tyv[0] in ('list', 'tuple') and tyv[1] is not None and tyi == INT, e, 'subscript on %s with %s' % (tyv, tyi))
             tmp = self.m.temp()
             return bv + bi + [(tmp, 'py_getitem %s %s' % (tv, ti))], tmp, tyv[1]
+        if isinstance(e, ast.Attribute) and not ast.unparse(e).startswith('self.') and e.attr in self.cfg.get('elem_attrs', {}):
+            b, term, t = self.expr(e.value, env)
+            self.need(t == OBJ, e, 'attribute .%s of a value of type %s' % (e.attr, t))
+            return b, '(g_%s %s)' % (e.attr, term), self.cfg['elem_attrs'][e.attr]
+        if isinstance(e, ast.Attribute) and ast.unparse(e).startswith('self.') and isinstance(e.value, ast.Subscript) and \
+                e.attr in self.cfg.get('elem_attrs', {}):
+            b, term, t = self.expr(e.value, env)
+            self.need(t == OBJ, e, 'attribute .%s of a value of type %s' % (e.attr, t))
+            return b, '(g_%s %s)' % (e.attr, term), self.cfg['elem_attrs'][e.attr]
         if isinstance(e, ast.Attribute):
             path = ast.unparse(e)
             self.need(path.startswith('self.'), e, 'attribute %s' % path)
@@ -711,6 +810,10 @@ class MethodTranslator:
             if p in self.cfg['abstract_attrs']:
                 return [], '(g_%s (a_st self))' % p.replace('.', '_'), self.cfg['abstract_attrs'][p]
             self.rej(e, 'attribute %s is neither a declared attribute nor a declared abstract attribute' % path)
+        if isinstance(e, ast.Attribute) and e.attr in self.cfg.get('elem_attrs', {}):
+            b, term, t = self.expr(e.value, env)
+            if t == OBJ:
+                return b, '(g_%s %s)' % (e.attr, term), self.cfg['elem_attrs'][e.attr]
         if isinstance(e, ast.UnaryOp) and isinstance(e.op, ast.Not):
             b, term, t = self.expr(e.operand, env)
             self.need(t == BOOL, e, '`not` on a non-boolean value')
@@ -735,6 +838,8 @@ class MethodTranslator:
             op = type(e.ops[0])
             if tyl == INT and tyr == INT:
                 sym = {ast.Lt: '<?', ast.LtE: '<=?', ast.Gt: '>?', ast.GtE: '>=?', ast.Eq: '=?'}
+                if op is ast.NotEq:
+                    return bl + br, '(negb (%s =? %s)%%Z)' % (tl, tr_), BOOL
                 self.need(op in sym, e, 'comparison operator %s' % op.__name__)
                 if op is ast.Eq and tl == tr_ and tl.startswith('(') and tl.endswith(')%Z') and tl[1:-3].lstrip('-').isdigit():
                     return bl + br, 'true', BOOL      # the same literal on both sides (after specialisation)
@@ -857,6 +962,47 @@ class MethodTranslator:
             inner = ast.Call(func=c.args[1], args=c.args[2:], keywords=[])
             ast.copy_location(inner, c)
             return self.call(inner, env)
+        if f == 'reversed' and len(c.args) == 1 and not c.keywords:
+            b, term, t = self.expr(c.args[0], env)
+            self.need(t[0] == 'list', c, 'reversed of %s' % (t,))
+            return b, '(rev %s)' % term, t
+        if f == 'sorted' and len(c.args) == 1:
+            b, term, t = self.expr(c.args[0], env)
+            if not c.keywords:
+                self.need(t == LIST(INT), c, 'sorted of %s without key (only lists of ints)' % (t,))
+                return b, '(py_sorted_int %s)' % term, t
+            k = c.keywords[0]
+            self.need(len(c.keywords) == 1 and k.arg == 'key' and isinstance(k.value, ast.Call) and ast.unparse(k.value.func) == 'attrgetter'
+                      and len(k.value.args) == 1 and isinstance(k.value.args[0], ast.Constant) and t == LIST(OBJ)
+                      and self.cfg.get('elem_attrs', {}).get(k.value.args[0].value) == FLOAT, c,
+                      'sorted with anything but key=attrgetter(<float attribute of the elements>)')
+            return b, '(py_sorted_by g_%s %s)' % (k.value.args[0].value, term), t
+        if isinstance(c.func, ast.Attribute) and c.func.attr == 'pop' and ast.unparse(c.func.value).startswith('self.') and \
+                ast.unparse(c.func.value)[5:] in self.cfg['attrs'] and len(c.args) == 1 and not c.keywords:
+            a = ast.unparse(c.func.value)[5:]
+            bl, tl, tyl = self.expr(c.func.value, env)
+            bi, ti, tyi = self.expr(c.args[0], env)
+            self.need(tyl[0] == 'list' and tyi == INT, c, 'pop on %s with %s' % (tyl, tyi))
+            x, rest_ = self.m.temp(), self.m.temp()
+            return bl + bi + [("'(%s, %s)" % (x, rest_), 'py_list_pop %s %s' % (tl, ti)),
+                              ('self', 'Some (set_f_%s self (Some %s))' % (a, rest_))], x, tyl[1]
+        if isinstance(c.func, ast.Attribute) and isinstance(c.func.value, ast.Subscript) and \
+                ast.unparse(c.func.value.value).startswith('self.') and c.func.attr in self.cfg.get('elem_oracles', {}):
+            # self.ATTR[i].m(args): the element after the call is written back at position i
+            a = ast.unparse(c.func.value.value)[5:]
+            o = self.cfg['elem_oracles'][c.func.attr]
+            self.need(a in self.cfg['attrs'] and self.cfg['attrs'][a] == LIST(OBJ) and not c.keywords and len(c.args) == len(o['params']), c,
+                      'element method call %s' % f)
+            bl, tl, tyl = self.expr(c.func.value.value, env)
+            bi, ti, tyi = self.expr(c.func.value.slice, env)
+            self.need(tyi == INT, c, 'index of type %s' % (tyi,))
+            parts = [self.expr(x_, env) for x_ in c.args]
+            args = ''.join(' ' + self.coerce(p_[1], p_[2], t, c) for p_, t in zip(parts, o['params']))
+            el, res, el2, l2 = self.m.temp(), self.m.temp(), self.m.temp(), self.m.temp()
+            b = bl + bi + sum((p_[0] for p_ in parts), []) + [
+                (el, 'py_getitem %s %s' % (tl, ti)), ("'(%s, %s)" % (res, el2), 'e_%s %s%s' % (c.func.attr, el, args)),
+                (l2, 'py_setitem %s %s %s' % (tl, ti, el2)), ('self', 'Some (set_f_%s self (Some %s))' % (a, l2))]
+            return b, ('tt' if o['ret'] == UNIT else res), o['ret']
         if f == 'len' and len(c.args) == 1 and not c.keywords:
             b, term, t = self.expr(c.args[0], env)
             if t == EMPTYSEQ:
@@ -945,14 +1091,15 @@ def render(mach, fns):
     opq = []
     for t in list(cfg['attrs'].values()) + list(cfg['abstract_attrs'].values()) + [o['ret'] for o in cfg['oracles'].values()] + \
             [o['ret'] for o in cfg['path_oracles'].values()] + list(cfg['param_types'].values()) + \
-            [t for o in cfg['oracles'].values() for t in o['params'].values()]:
+            [t for o in cfg['oracles'].values() for t in o['params'].values()] + \
+            [o['ret'] for o in cfg.get('elem_oracles', {}).values()] + [t for o in cfg.get('elem_oracles', {}).values() for t in o['params']]:
         opaque_names(t, opq)
     cname = cfg['cls']
     out = ['(* GENERATED by harness/translate/py2gallina_machine.py --target %s -- DO NOT EDIT.  Regenerated from the Python source at'
            '\n   every ./setup.sh %s and ./check %s run.  Scheme: header of the translator; semantics: Base/PyLib.v, PyNum.v, PyMachine.v.'
            '\n   source: %s, class %s *)' % ([k for k, v in TARGETS.items() if v is cfg][0], cfg['prop'], cfg['prop'], cfg['file'], cname),
            'From Coq Require Import ZArith List Bool QArith Qcanon.',
-           'From SG Require Import Base.QcUtil Base.PyLib Base.PyNum Base.PyMachine%s.' % (' Base.PyValue' if cfg['prop'] == 'C12' else ''),
+           'From SG Require Import Base.QcUtil Base.PyLib Base.PyNum Base.PyMachine%s.' % (' Base.PyValue' if cfg['prop'] == 'C12' else ' Base.PySort' if cfg['prop'] == 'C06' else ''),
            'Import ListNotations.', 'Open Scope Z_scope.', 'Open Scope py_scope.', '',
            'Section %s.' % cname,
            '(* the abstract part of the object and the opaque value types *)',
@@ -962,6 +1109,14 @@ def render(mach, fns):
     out.append('(* abstract attributes: total projections *)')
     for a, t in cfg['abstract_attrs'].items():
         out.append('Variable g_%s : St -> %s.' % (a.replace('.', '_'), gt(t)))
+    for t in list(cfg.get('elem_attrs', {}).values()) + [o['ret'] for o in cfg.get('elem_oracles', {}).values()] + \
+            [t for o in cfg.get('elem_oracles', {}).values() for t in o['params']]:
+        pass
+    for a, t in cfg.get('elem_attrs', {}).items():
+        out.append('Variable g_%s : T_obj -> %s.   (* attribute .%s of an element *)' % (a, gt(t), a))
+    for n, o in cfg.get('elem_oracles', {}).items():
+        out.append('Variable e_%s : T_obj%s -> option (%s * T_obj).   (* method .%s(..) of an element: result and the element after the call *)'
+                   % (n, ''.join(' -> ' + gt(t) for t in o['params']), gt(o['ret']), n))
     out.append('(* oracle methods (signatures read from the source): None = the call raises *)')
     for n, o in cfg['oracles'].items():
         ps = ''.join(' -> %s' % gt(t) for _, t, _ in o['signature'])
